@@ -39,6 +39,9 @@ type NodeJob struct {
 	Order   *OrderPlan    `json:"order,omitempty"` // nil = canonical map order
 	TickNS  int64         `json:"tick_ns,omitempty"`
 	Rand    int64         `json:"rand_seed,omitempty"` // seed of the process's math/rand stand-in (0: 1)
+	// Sched: the process's main goroutine is the first task of a cooperative run; goroutines it starts, the channels
+	// between them and the choices of its select statements follow this vector (empty: lowest task first)
+	Sched []uint16 `json:"sched,omitempty"`
 }
 
 type NodeTap struct {
@@ -151,9 +154,13 @@ func nodeRun() bool {
 		args = append(args, string(a))
 	}
 	os.Args = args
-	func() {
+	simrt.ExitWithMain = true
+	rr := simrt.Run([]func(){func() {
 		defer func() {
 			if r := recover(); r != nil {
+				if simrt.IsAbort(r) {
+					panic(r)
+				}
 				if ep, ok := r.(simos.ExitPanic); ok {
 					finish(&NodeResult{Exit: "exit", Code: ep.Code}, ep.Code)
 				}
@@ -161,7 +168,16 @@ func nodeRun() bool {
 			}
 		}()
 		node.WtfMain()
-	}()
+	}}, job.Sched, 5_000_000)
+	for _, pv := range rr.Panics { // a goroutine the program started panicked
+		finish(&NodeResult{Exit: "panic", Code: 2, Panic: pv}, 2)
+	}
+	if rr.Deadlock {
+		finish(&NodeResult{Exit: "fatal", Code: 2, Panic: "all goroutines are asleep - deadlock! (" + rr.DeadlockInfo + ")"}, 2)
+	}
+	if rr.OverBudget {
+		finish(&NodeResult{Exit: "fatal", Code: 2, Panic: "the process did not end within the step budget of the simulated run"}, 2)
+	}
 	finish(&NodeResult{Exit: "exit", Code: 0}, 0)
 	return true
 }
